@@ -84,6 +84,15 @@ def directed_inputs(tier):
                 if (n, k) in ((16, 5), (40, 5), (24, 8)) or tier != 'quick':
                     v6 = [0x60, 0, 0, 0, len(t) >> 8, len(t) & 255, 6, 64] + [0xfd] + [0] * 14 + [1] + [0xfd] + [0] * 14 + [2]
                     out.append({'bytes': eth + [0x86, 0xdd] + v6 + t, 'plan': [['eth', 0, 0], ['ether', 0x86dd, 14], ['ip', 0, 14], ['ipv6', 0, 14]]})
+    # Linux SLL: every ARP hardware id the crate has a name for (5 of them are documented as supported) and the neighbours of the supported
+    # ones, with an IPv4 / UDP packet behind the header; every packet type 0..=8
+    named = list(range(0, 39)) + [256, 257, 258, 259, 260, 264, 270, 271, 272, 280, 512, 513, 516, 517, 518, 519] + list(range(768, 788)) + list(range(800, 806)) + list(range(820, 827))
+    hws = named if tier != 'quick' else [0, 1, 2, 6, 24, 32, 256, 512, 768, 769, 770, 771, 772, 773, 776, 777, 778, 779, 783, 801, 802, 803, 804, 823, 824, 825, 826, 65535]
+    udp = [0, 53, 0x30, 0x39, 0, 12, 0, 0, 1, 2, 3, 4]
+    v4 = [0x45, 0, 0, 32, 0, 1, 0x40, 0, 64, 17, 0, 0, 10, 0, 0, 1, 10, 0, 0, 2]
+    for hw in hws:
+        for pt in ((0, 4) if tier == 'quick' else range(0, 9)):
+            out.append({'bytes': [0, pt, hw >> 8, hw & 255, 0, 6, 1, 2, 3, 4, 5, 6, 0, 0, 8, 0] + v4 + udp, 'plan': [['sll', 0, 0]]})
     return out
 
 
